@@ -213,6 +213,10 @@ def run(ctx):
     ctx.check(cls.bases and cls.bases[0].name == "RandMeth" and "reset_seed" not in cls.methods and "update" not in cls.methods, "R16.2", GEN + "::IncomprRandMeth",
               "mode sampling / update logic is inherited unchanged from RandMeth (C11 rules apply)", "inherits")
     vector_frame(ctx)
+    from .C11 import generator_coherence, private_copy
+
+    generator_coherence(ctx, rule="R16.4")  # stale wave vectors (e.g. a third row left over from a 3-D model) break k.p(k) = 0: shared with C11
+    private_copy(ctx, rule="R16.5")
     ctx.floor("R16", "obligations", len(ctx.records), 12)
     return (
         "Decides the index/shape clauses behind incompressibility: the projector in summate_incompr is e1[d] - k[d,j]*k[a,j]/|k_j|^2 with |k_j|^2 the "
